@@ -6,7 +6,9 @@ import Feox.Fmt.Intent
 marker-span condition follow from the tiling (`tiled_markOK`, `span_avoids_retired`);
 `survivors_of_retirement` says which records the table is folded over: exactly those not journalled.
 `recover_crashed_write`: the journal holds extents that were free; nothing of the write is visible and
-every old record survives (`filterRuns_free`).
+every old record survives (`filterRuns_free`).  `recover_crashed_front_write`: the same from a device with
+complete markers when every journalled extent was allocated from the front of a free run — the marker-span
+condition then follows too (`span_avoids_front_alloc`).
 -/
 namespace Feox.Fmt
 open Feox.Gen Feox.Proto
@@ -203,5 +205,68 @@ theorem survivors_of_retirement {d : Disk} {hi lo : Nat} {L : List Rec} (ht : Ti
       · omega
     · exact decide_eq_true (Or.inl h)
     · exact decide_eq_true (Or.inr h)
+
+/-- **No old marker span reaches into space allocated from the front of a free run.**  Every journalled
+extent starts at the beginning of the data area, right after a block that is not free-looking (a record),
+or right after another journalled block (the previous extent of the same batch).  Then the span of a marker
+outside the journalled blocks contains none of them — the hypothesis `hspan` for write transactions. -/
+theorem span_avoids_front_alloc {d : Disk} {hi lo : Nat} {L : List Rec} (h : TiledBy d hi L lo) (exts : List (Nat × Nat))
+    (hx : ∀ e ∈ exts, lo ≤ e.1 ∧ (e.1 = lo ∨ ¬ FLs d (e.1 - 1) ∨ inExt exts (e.1 - 1))) :
+    ∀ p r, lo ≤ p → p < hi → ¬ inExt exts p → d p = .mark r → ∀ q, p ≤ q → q < p + r → ¬ inExt exts q := by
+  intro p r hlo hp hout hm
+  obtain ⟨_, _, hfl⟩ := tiled_markOK h p hlo hp r hm
+  intro q
+  induction q using Nat.strongRecOn with
+  | ind q ih =>
+    intro hq1 hq2 hin
+    by_cases hqp : q = p
+    · subst hqp; exact hout hin
+    · obtain ⟨e, he, h1, h2⟩ := hin
+      have hpe : p < e.1 := by
+        rcases Nat.lt_or_ge p e.1 with h' | h'
+        · exact h'
+        · exact absurd ⟨e, he, h', by omega⟩ hout
+      obtain ⟨hlo', hc | hc | hc⟩ := hx e he
+      · omega
+      · by_cases hpp : e.1 - 1 = p
+        · rw [hpp] at hc; exact hc (Or.inr ⟨r, hm⟩)
+        · exact hc (hfl (e.1 - 1) (by omega) (by omega))
+      · by_cases hpp : e.1 - 1 = p
+        · rw [hpp] at hc; exact hout hc
+        · exact ih (e.1 - 1) (by omega) (by omega) (by omega) hc
+
+
+/-- **A crash during a write transaction that allocated from the front of free runs — whole open, from a
+clean device.**  `img0` is a device with complete markers (`MarksClean`, what `openCleanB` decides on every
+flushed file); the journal holds extents that were free on it, each starting at the front of a free run (or
+right after the previous extent of the batch); the crashed image differs from `img0` only inside them.
+`recoverImage` succeeds, writes only the replay, and shows exactly the old records. -/
+theorem recover_crashed_front_write (img0 img : Image) (size : Nat) (o : Opts) (info : Gen → RecMeta) (d0 : Disk) (L : List Rec)
+    (md : Meta) (js : JournalState) (co : List (Nat × Nat))
+    (hro : o.readOnly = false)
+    (hsize : validDeviceSize size = true) (himg : img.size * BSZ = size) (hnz : imageAllZero img = false)
+    (hsig : slice (selectMeta (blockAt img FEOX_METADATA_BLOCK) (blockAt img FEOX_METADATA_BACKUP_BLOCK)) 0 FEOX_SIGNATURE_SIZE = FEOX_SIGNATURE)
+    (hmd : Meta.decode (selectMeta (blockAt img FEOX_METADATA_BLOCK) (blockAt img FEOX_METADATA_BACKUP_BLOCK)) = some md)
+    (hjs : decodeJournal ((List.range ALLOCATION_JOURNAL_BLOCKS).flatMap fun i => blockAt img (ALLOCATION_JOURNAL_START_BLOCK + i)) (size / BSZ) = .ok js)
+    (hne : js.extents.isEmpty = false) (hco : coalesceExtents js.extents = some co)
+    (hrep : Rep img0 md.version FEOX_DATA_START_BLOCK (size / BSZ) info d0) (ht : TiledBy d0 (size / BSZ) L FEOX_DATA_START_BLOCK)
+    (htot0 : size / BSZ ≤ img0.size)
+    (hclean : MarksClean img0 FEOX_DATA_START_BLOCK (size / BSZ) d0)
+    (hx : ∀ e ∈ js.extents, 0 < e.2 ∧ FEOX_DATA_START_BLOCK ≤ e.1 ∧ e.1 + e.2 ≤ size / BSZ ∧
+      (∀ q, e.1 ≤ q → q < e.1 + e.2 → FLs d0 q) ∧
+      (e.1 = FEOX_DATA_START_BLOCK ∨ ¬ FLs d0 (e.1 - 1) ∨ inExt js.extents (e.1 - 1)))
+    (hagree : ∀ q, FEOX_DATA_START_BLOCK ≤ q → ¬ inExt js.extents q → blockAt img q = blockAt img0 q)
+    (hnd : (L.map (fun r => (info r.2.1).key)).Nodup)
+    (hexp : o.ttlOn = true → ∀ l ∈ L.foldl (fun lv r => absorbLive lv (liveOf info r)) [],
+      (decide (l.expiry > 0) && decide (o.now > l.expiry)) = false) :
+    ∃ r io1, (recoverImage img size o).result = .ok r ∧ (recoverImage img size o).io = io1 ∧ r.image = applyIo img io1 ∧
+      r.version = md.version ∧ r.live = L.foldl (fun lv r => absorbLive lv (liveOf info r)) [] :=
+  recover_crashed_write img0 img size o info d0 L md js co hro hsize himg hnz hsig hmd hjs hne hco hrep ht htot0
+    (fun e he => by obtain ⟨a, b, c, d, _⟩ := hx e he; exact ⟨a, b, c, d⟩)
+    hagree
+    (fun p r h1 h2 _ hm => hclean p r h1 h2 hm)
+    (span_avoids_front_alloc ht js.extents (fun e he => by obtain ⟨_, b, _, _, f⟩ := hx e he; exact ⟨b, f⟩))
+    hnd hexp
+
 
 end Feox.Fmt
